@@ -64,7 +64,8 @@ func NewByteBuffer() *ByteBuffer {
 // This call grows the write area by at least `n` bytes. This might allocate.
 func (b *ByteBuffer) Reserve(n int) {
 	existing := cap(b.data) - b.wi
-	if need := n - existing; need > 0 {
+	if n > existing {
+		need := n - existing
 		b.data = b.data[:cap(b.data)]
 		b.data = append(b.data, make([]byte, need)...)
 	}
@@ -83,10 +84,10 @@ func (b *ByteBuffer) Commit(n int) {
 		return
 	}
 
-	b.ri += n
-	if b.ri > b.wi {
-		b.ri = b.wi
+	if writeLen := b.wi - b.ri; n > writeLen {
+		n = writeLen
 	}
+	b.ri += n
 }
 
 // Prefault the buffer, forcing physical memory allocation.
@@ -358,8 +359,9 @@ func (b *ByteBuffer) PrepareRead(n int) (err error) {
 // in the callback and the unused bytes will be used in future claims.
 func (b *ByteBuffer) Claim(fn func(b []byte) int) {
 	n := fn(b.data[b.wi:cap(b.data)])
-	if wi := b.wi + n; n >= 0 && wi <= cap(b.data) {
+	if n >= 0 && n <= cap(b.data)-b.wi {
 		// wi <= cap(b.data) because the invariant is that b.wi = min(len(b.data), cap(b.data)) after each call
+		wi := b.wi + n
 		b.wi = wi
 		b.data = b.data[:b.wi]
 	}
@@ -370,7 +372,8 @@ func (b *ByteBuffer) Claim(fn func(b []byte) int) {
 // Callers do not have the option to write less than they claim. The write area
 // will grow by `n`.
 func (b *ByteBuffer) ClaimFixed(n int) (claimed []byte) {
-	if wi := b.wi + n; n >= 0 && wi <= cap(b.data) {
+	if n >= 0 && n <= cap(b.data)-b.wi {
+		wi := b.wi + n
 		claimed = b.data[b.wi:wi]
 		b.wi = wi
 		b.data = b.data[:b.wi]
